@@ -12,7 +12,16 @@ for f in sorted(glob.glob('/verif/seeded/*/meta.json')):
     missed_first=[c for c,e in first.items() if e!=1 and last.get(c)==1]
     status='caught' if caught_by else ('MISSED' if runs else 'not run')
     if missed_first: status='caught after strengthening'
-    rows.append((m['seed'],m['breaks_property'],m['change'][:160].replace('|','/'),m['needs_to_manifest'][:140].replace('|','/'),', '.join(caught_by) or '-',status))
-print('| seed | property | change | needs | caught by (quick tier) | status |')
-print('|---|---|---|---|---|---|')
-for r in rows: print('| '+' | '.join(r)+' |')
+    rows.append((m['seed'],m['breaks_property'],m['change'][:230].replace('|','/'),m['needs_to_manifest'][:200].replace('|','/'),', '.join(caught_by) or '-',status))
+out=['| seed | property | change | needs | caught by (quick tier) | status |','|---|---|---|---|---|---|']
+for r in rows: out.append('| '+' | '.join(r)+' |')
+table='\n'.join(out)
+import sys
+if len(sys.argv)>1 and sys.argv[1]=='--splice':
+    d=open('/verif/DESIGN.md').read()
+    a,b='<!-- SEED-TABLE-BEGIN -->','<!-- SEED-TABLE-END -->'
+    i,j=d.index(a)+len(a),d.index(b)
+    open('/verif/DESIGN.md','w').write(d[:i]+'\n'+table+'\n'+d[j:])
+    print(f'spliced {len(rows)} rows')
+else:
+    print(table)
